@@ -119,6 +119,7 @@ class RegRequest:
     base_time: Optional[datetime.datetime] = None
     reuse_chain: object = None                # a ca.Chain built earlier: present byte-identical certificates again
     chain_validity: Optional[dict] = None     # validity windows (offsets from base_time) per chain member, see ca.build_chain
+    snet_payload_pad: int = 0                 # SafetyNet: that many extra characters in the payload JSON (an additional member), to vary its length mod 3
     snet_ts_shift_ms: int = 0                 # SafetyNet: timestampMs = base_time + this many milliseconds
     tpm_name_alg: int = tpm.TPM_ALG_SHA256
     tpm_vendor: str = "id:414D4400"
@@ -814,6 +815,8 @@ def _safetynet_payload(b: _Build) -> dict:
         payload["basicIntegrity"] = "null"
     if b.has("S.basicintegrity-missing"):
         del payload["basicIntegrity"]
+    if b.req.snet_payload_pad:
+        payload["advice"] = "x" * (b.req.snet_payload_pad - 1)
     return payload
 
 
